@@ -265,6 +265,9 @@ def shard_main(ck, shard, nshards):
     if crash:
       ck.discard(crash); return
     tm = c.tm
+    if ck.quick and (tm.nv > 6 or c.dx0._impl.nefc > 24):
+      ck.discard('too-large-for-quick-tier')     # three jit compilations (vmap g, jacfwd, jacrev) grow quickly with nefc
+      return
     pts = []
     for sd in seeds:
       s = gx.make_state(lib, tm, sd, pos_scale=0.3, vel_scale=1.0, forces=True, warm=False)
